@@ -132,6 +132,7 @@ type Engine struct {
 	sortSrc string
 	skippedPanics int
 	matBack map[string]*Loc
+	matNew  []matEntry // interior pointers materialised for the calls in progress (copy-out after the call)
 	runesFlag int
 	acquired map[string]bool
 	knownActive map[string]bool
